@@ -56,7 +56,7 @@ func searchC13() {
 	c := c03xNewChecker("C13")
 	nDays, nShuJiu, nFu, nLongZhongFu, nChuxi, nHanshi, nShe := 0, 0, 0, 0, 0, 0, 0
 	samples := 0
-	for _, y := range sweepYears(300) {
+	for _, y := range sweepYears(200) {
 		ys := fmt.Sprint(y)
 		a, msg := c03xLoadAround(y)
 		if a == nil || len(a.cur) != 31 {
